@@ -1,4 +1,271 @@
-/- C18 — property theorems (stub; filled in by the owning work package). -/
-import Rdm.Basic
+/-
+  C18 — concealed and mixed criteria are well-formed additions.
+  Property theorems only (helper lemmas live in Rdm/Lemmas/BiasB*.lean).
+
+  Model: Rdm/Model/{RefCriterion,BiasesB}.lean, tied bit-for-bit to the Go code by the stages `refcrit`,
+  `conceal-apply`, `mixing-apply` of `bin/check C18`; the decidable statement Rdm/Spec/C18.lean is evaluated
+  on the implementation's own output by the driver.
+-/
+import Rdm.Lemmas.BiasBConceal
+import Rdm.Lemmas.BiasBRef
+import Rdm.Lemmas.BiasBNames
+import Rdm.Lemmas.BiasBRat
+import Rdm.Lemmas.BiasBWeight
+import Rdm.Lemmas.BiasBParams
+import Rdm.Spec.C18
+import Mathlib.Tactic.NormNum
 namespace Rdm.Props.C18
+open Rdm
+
+/-! ### bridges: constants of the property statement = constants extracted from the code -/
+
+theorem gain_is_gain : Facts.critGain = "gain" := rfl
+theorem default_mixing_ratio_is_half : (Num.ofConst Facts.defaultMixingRatio : Rat) = 1 / 2 := by
+  simp only [Num.ofConst_rat, Facts.defaultMixingRatio]; norm_num
+theorem default_concealment_scaling_is_one : (Num.ofConst Facts.defaultConcealmentScaling : Rat) = 1 := by
+  simp only [Num.ofConst_rat, Facts.defaultConcealmentScaling]; norm_num
+theorem default_bounding_is_off : (Num.ofConst Facts.defaultBoundingScaling : Rat) = -1 := by
+  simp only [Num.ofConst_rat, Facts.defaultBoundingScaling]; norm_num
+theorem default_reference_type_is_importance_ratio : refFactoryIds.head? = some "importanceRatio" := rfl
+
+/-! ### concealment (any number type) -/
+
+/-- A successful concealment appends exactly one criterion: it is a gain criterion, carries the
+    generated name, and that name is the id of no current criterion. -/
+theorem conceal_appends_one_gain_criterion {α : Type} [Num α] {eps : α} {orig cur : DMP α} {p : Props α}
+    {rd g : Draws α} {res : DMP α} {rep : ConcealReport α}
+    (h : conceal eps orig cur p rd g = .ok (res, rep)) :
+    (∃ c : Crit α, res.crit = cur.crit ++ [c] ∧ c.id = rep.id ∧ c.type = "gain" ∧ c.range = some rep.range) ∧
+    rep.id = notUsedName (cur.crit.map (·.id)) "__concealedCriterion__" ∧
+    ∀ x ∈ cur.crit, x.id ≠ rep.id := by
+  obtain ⟨h1, h2, h3, h4, _⟩ := conceal_ok h
+  refine ⟨⟨_, h3, rfl, by rw [h2]; rfl, rfl⟩, h1, ?_⟩
+  intro x hx e
+  have := h4 x hx
+  simp [e] at this
+
+/-- Frame: the considered / not-considered split is unchanged, and every resulting alternative is a
+    current alternative with exactly one value appended — the reported value for the new criterion —
+    so every old value is untouched; one value is reported per known alternative. -/
+theorem conceal_gives_every_alternative_a_value_and_keeps_the_rest {α : Type} [Num α] {eps : α}
+    {orig cur : DMP α} {p : Props α} {rd g : Draws α} {res : DMP α} {rep : ConcealReport α}
+    (h : conceal eps orig cur p rd g = .ok (res, rep)) :
+    res.co.map (·.id) = cur.co.map (·.id) ∧ res.nc.map (·.id) = cur.nc.map (·.id) ∧
+    rep.values.length = (cur.co ++ cur.nc).length ∧
+    ∀ a' ∈ res.co ++ res.nc, ∃ a ∈ cur.co ++ cur.nc, ∃ v,
+      a'.id = a.id ∧ a'.vals = a.vals ++ [(rep.id, v)] ∧ a.vals.has rep.id = false ∧ (a.id, v) ∈ rep.values := by
+  obtain ⟨_, _, _, _, h5, h6, h7, h8, _⟩ := conceal_ok h
+  refine ⟨h5, h6, h8, ?_⟩
+  intro a' ha'
+  obtain ⟨a, ha, v, e1, e2, e3, e4⟩ := h7 a' ha'
+  exact ⟨a, ha, v, by simpa using e1, e2, e3, e4⟩
+
+/-- Naming: while the ids carrying the concealed prefix are exactly the first `k` generated names
+    (no foreign id has the prefix, earlier concealed criteria are numbered consecutively), the next
+    generated name is new, and appending it keeps the invariant (so any number of consecutive
+    concealments get distinct ids). -/
+theorem concealed_name_is_fresh_under_the_naming_invariant {ids : List String} {k : Nat}
+    (hinv : NamingInvariant ids "__concealedCriterion__" k) :
+    notUsedName ids "__concealedCriterion__" ∉ ids ∧
+    NamingInvariant (ids ++ [notUsedName ids "__concealedCriterion__"]) "__concealedCriterion__" (k + 1) :=
+  ⟨(notUsedName_fresh hinv).2, namingInvariant_step hinv⟩
+
+example : NamingInvariant ["c0", "c1"] "__concealedCriterion__" 0 := by simp [NamingInvariant]
+example : NamingInvariant ["c0", "__concealedCriterion__", "c1", "__concealedCriterion__1"] "__concealedCriterion__" 2 := by
+  simp [NamingInvariant, List.range, List.range.loop, numberedName]
+  rfl
+
+/-- Counterexample outside the invariant (conceal, conceal, omit the first concealed criterion,
+    conceal): when the only id left with the prefix is `__concealedCriterion__1`, the generated name
+    is that id again and the model — like the Go code, which panics in `WithCriterion` / `Criteria.Add` —
+    rejects the concealment, for every method, seed and props. -/
+theorem conceal_collides_after_conceal_conceal_omit {α : Type} [Num α] (eps : α) (orig cur : DMP α)
+    (p : Props α) (rd g : Draws α)
+    (hids : ((cur.crit.map (·.id)).filter fun i => i.startsWith "__concealedCriterion__") = ["__concealedCriterion__" ++ "1"]) :
+    ∃ e, conceal eps orig cur p rd g = .error e := by
+  cases hres : conceal eps orig cur p rd g with
+  | error e => exact ⟨e, rfl⟩
+  | ok r =>
+    obtain ⟨res, rep⟩ := r
+    obtain ⟨_, hname, hfresh⟩ := conceal_appends_one_gain_criterion hres
+    have hmem := notUsedName_collision hids
+    rw [← hname, List.mem_map] at hmem
+    obtain ⟨x, hx, e⟩ := hmem
+    exact (hfresh x hx e).elim
+
+example : ((["c0", "__concealedCriterion__1"]).filter fun i => i.startsWith "__concealedCriterion__")
+    = ["__concealedCriterion__" ++ "1"] := by simp
+
+/-! ### concealment (exact arithmetic) -/
+
+/-- Every concealed value lies in the new criterion's range (the reference range scaled about its
+    centre) when no bounding is configured, for draws in [0,1) and an ordered range. -/
+theorem concealed_values_lie_in_the_scaled_range {eps : Rat} {orig cur : DMP Rat} {p : Props Rat}
+    {rd g : Draws Rat} {res : DMP Rat} {rep : ConcealReport Rat}
+    (h : conceal eps orig cur p rd g = .ok (res, rep))
+    (hg : ∀ u ∈ g, 0 ≤ u ∧ u < 1) (hr : rep.range.1 ≤ rep.range.2)
+    (hoff : ∀ b, boundingOfProps p = .ok b → ¬ (0 : Rat) < b.scaling ∧ b.nonNeg = false) :
+    ∀ iv ∈ rep.values, rep.range.1 ≤ iv.2 ∧ iv.2 ≤ rep.range.2 := by
+  obtain ⟨_, _, _, _, _, _, _, _, b, hb, hv⟩ := conceal_ok h
+  intro iv hiv
+  obtain ⟨u, hu, e⟩ := hv iv hiv
+  obtain ⟨hs, hn⟩ := hoff b hb
+  rw [e]
+  exact concealValue_in_range b rep.range.1 rep.range.2 u hs hn hr (hg u hu).1 (hg u hu).2
+
+/-- With a positive `allowedValuesRangeScaling` every concealed value lies in the allowed range (the new
+    criterion's range scaled about its centre by that factor). -/
+theorem concealed_values_lie_in_the_bounded_range {eps : Rat} {orig cur : DMP Rat} {p : Props Rat}
+    {rd g : Draws Rat} {res : DMP Rat} {rep : ConcealReport Rat}
+    (h : conceal eps orig cur p rd g = .ok (res, rep)) :
+    ∃ b, boundingOfProps p = .ok b ∧
+      ((0 : Rat) < b.scaling → (allowedRange b rep.range).1 ≤ (allowedRange b rep.range).2 →
+        ∀ iv ∈ rep.values, (allowedRange b rep.range).1 ≤ iv.2 ∧ iv.2 ≤ (allowedRange b rep.range).2) := by
+  obtain ⟨_, _, _, _, _, _, _, _, b, hb, hv⟩ := conceal_ok h
+  refine ⟨b, hb, ?_⟩
+  intro hs hr iv hiv
+  obtain ⟨u, _, e⟩ := hv iv hiv
+  rw [e]
+  exact bound_in_allowed b rep.range _ hs hr
+
+/-- The range of the concealed criterion stays ordered for a non-negative `newCriterionScaling`. -/
+theorem scaled_range_is_ordered (r : Rat × Rat) (s : Rat) (hr : r.1 ≤ r.2) (hs : 0 ≤ s) :
+    (scaleEqually r s).1 ≤ (scaleEqually r s).2 := scaleEqually_ordered r s hr hs
+
+/-- Weight-based methods (weighted sum, OWA, ELECTRE III, majority, aspect elimination): the parameters
+    a listener returns for the new criterion satisfy the weight clause of the spec — the new weight is
+    `u · w_ref` for the drawn `u ∈ [0,1)`: in `[0, w_ref)` for a positive reference weight. -/
+theorem added_weight_is_a_seeded_fraction_of_the_reference_weight {mp : MParams Rat} {crit ref : Crit Rat}
+    {u : Rat} {d d' : Draws Rat} {add : Addition Rat}
+    (h : onAdded mp crit ref (u :: d) = .ok (add, d'))
+    (hw : (Spec.C18.weightOf mp ref.id).isSome) (hu0 : 0 ≤ u) (hu1 : u < 1) :
+    Spec.C18.weightClause mp add ref.id crit.id = true := onAdded_weightClause h hw hu0 hu1
+
+/-- Parameters extended consistently — proved for the weighted sum and the majority heuristic: after
+    `Merge(params, OnCriterionAdded(..))` the parameters satisfy the clause `paramsExtended` of the spec
+    (every old entry untouched, exactly one entry for the new criterion).
+    Full statement (`_partial`: missing cases): the same for ELECTRE III (`mergeDisjoint` of the criteria map),
+    aspect elimination and satisfaction (weights plus one threshold per level, `levelsMerge`); for OWA and
+    Choquet `mergeParams` returns an error on every addition (known findings owa-merge / choquet-merge),
+    which the model reproduces. -/
+theorem parameters_are_extended_for_the_new_criterion_partial :
+    (∀ {wc wc0 : List (WCrit Rat)} {crit ref : Crit Rat} {d d' : Draws Rat} {add : Addition Rat} {mp' : MParams Rat},
+      onAdded (.ws wc0) crit ref d = .ok (add, d') → mergeParams (.ws wc) add = .ok mp' →
+      Spec.C18.paramsExtended (.ws wc) mp' [crit.id] = true) ∧
+    (∀ {w w0 : KMap Rat} {cur cur0 : String} {seed seed0 : Int} {rnd rnd0 : Bool} {dr dr0 : String}
+      {crit ref : Crit Rat} {d d' : Draws Rat} {add : Addition Rat} {mp' : MParams Rat},
+      (w.map (·.1)).Nodup →
+      onAdded (.majority w0 cur0 seed0 rnd0 dr0) crit ref d = .ok (add, d') →
+      mergeParams (.majority w cur seed rnd dr) add = .ok mp' →
+      Spec.C18.paramsExtended (.majority w cur seed rnd dr) mp' [crit.id] = true) :=
+  ⟨fun h1 h2 => ws_parameters_extended h1 h2, fun hnd h1 h2 => majority_parameters_extended hnd h1 h2⟩
+
+/-- OWA: `Merge` rejects every addition (the model reproduces the Go panic). -/
+theorem owa_merge_rejects_every_addition {α : Type} [Num α] (wc : List (WCrit α)) (add : Addition α) :
+    ∃ e, mergeParams (.owa wc) add = .error e := by
+  cases add <;> exact ⟨_, rfl⟩
+
+theorem fraction_bounds (u w : Rat) (hu0 : 0 ≤ u) (hu1 : u < 1) (hw : 0 < w) : 0 ≤ u * w ∧ u * w < w :=
+  fraction_of_positive u w hu0 hu1 hw
+
+/-! ### mixing -/
+
+/-- Fewer than two current criteria: mixing returns the current state unchanged and reports nothing. -/
+theorem mixing_is_a_noop_below_two_criteria {α : Type} [Num α] (eps : α) (orig cur : DMP α) (p : Props α)
+    (rd g : Draws α) (hlen : cur.crit.length < 2) : mixing eps orig cur p rd g = .ok (cur, none) :=
+  mixing_noop hlen
+
+/-- The index arithmetic of `selectCriteriaToMix` (`i₁ = ⌊u₁·n⌋`, `off = ⌊u₂·(n−2)⌋ + 1`,
+    `i₂ = (i₁ + off) mod n`): two different in-range indices for `n ≥ 2` and draws in [0,1). -/
+theorem mixing_selects_two_distinct_in_range_indices (n : Nat) (u1 u2 : Rat) (hn : 2 ≤ n)
+    (h10 : 0 ≤ u1) (h11 : u1 < 1) (h20 : 0 ≤ u2) (h21 : u2 < 1) :
+    0 ≤ (mixIndices n u1 u2).1 ∧ (mixIndices n u1 u2).1 < n ∧
+    0 ≤ (mixIndices n u1 u2).2 ∧ (mixIndices n u1 u2).2 < n ∧
+    (mixIndices n u1 u2).1 ≠ (mixIndices n u1 u2).2 := mixIndices_distinct n u1 u2 hn h10 h11 h20 h21
+
+/-- A mixed value `ρ·c₁ + (1−ρ)·c₂` lies between the two rescaled components for `ρ ∈ [0,1]`. -/
+theorem mixed_value_lies_between_the_components (ρ x y : Rat) (h0 : 0 ≤ ρ) (h1 : ρ ≤ 1) :
+    min x y ≤ mixValue ρ x y ∧ mixValue ρ x y ≤ max x y := mixValue_between ρ x y h0 h1
+
+/-- A rescaled component lies in `[0, T]` when the criterion's (non-degenerate) range contains the
+    value; cost criteria are inverted (`(max − v)·T/(max − min)`). -/
+theorem rescaled_component_lies_in_target (c : Crit Rat) (lo hi t v : Rat) (hlt : lo < hi) (ht : 0 ≤ t)
+    (hv0 : lo ≤ v) (hv1 : v ≤ hi) :
+    0 ≤ scaleValue c (lo, hi) (getScaleRatio (0, t) (lo, hi)) (0, t) v ∧
+    scaleValue c (lo, hi) (getScaleRatio (0, t) (lo, hi)) (0, t) v ≤ t :=
+  scaleValue_in_target c lo hi t v hlt ht hv0 hv1
+
+/-- A successful mixing of a state with at least two criteria appends exactly one gain criterion named
+    `__c₁+c₂__` after the two criteria picked from `original` by the index arithmetic, with an id that no
+    current criterion has; the split is unchanged; every mixed value is `ρ·c₁ + (1−ρ)·c₂` of the two
+    reported components.  The resulting alternatives are alternatives of **`original`** with the new
+    value appended: existing values are untouched only relative to `original` (for the first bias of a
+    sequence `original = current`; otherwise this is the C07/C18 defect the check reports). -/
+theorem mixing_appends_one_gain_criterion {α : Type} [Num α] {eps : α} {orig cur : DMP α} {p : Props α}
+    {rd g : Draws α} {res : DMP α} {rep : Option (MixReport α)} (hlen : 2 ≤ cur.crit.length)
+    (h : mixing eps orig cur p rd g = .ok (res, rep)) :
+    ∃ r : MixReport α, rep = some r ∧
+      (∃ c : Crit α, res.crit = cur.crit ++ [c] ∧ c.id = r.new.id ∧ c.type = "gain") ∧
+      (∃ c1 ∈ orig.crit, ∃ c2 ∈ orig.crit, r.c1.id = c1.id ∧ r.c2.id = c2.id ∧
+          r.new.id = "__" ++ c1.id ++ "+" ++ c2.id ++ "__") ∧
+      (∀ x ∈ cur.crit, x.id ≠ r.new.id) ∧
+      res.co.map (·.id) = cur.co.map (·.id) ∧ res.nc.map (·.id) = cur.nc.map (·.id) ∧
+      (∀ a' ∈ res.co ++ res.nc, ∃ a ∈ orig.co ++ orig.nc, ∃ v,
+          a'.id = a.id ∧ a'.vals = a.vals ++ [(r.new.id, v)] ∧ a.vals.has r.new.id = false) ∧
+      (∀ am ∈ r.new.values, ∃ x y, (am.1, x) ∈ r.c1.values ∧ r.c2.values.get? am.1 = some y ∧
+          am.2 = mixValue (p.num "mixingRatio" (Num.ofConst Facts.defaultMixingRatio)) x y) := by
+  unfold mixing at h
+  rw [if_neg (by omega)] at h
+  dsimp only at h
+  split at h
+  · simp [throw, throwThe, MonadExceptOf.throw] at h
+  · obtain ⟨d1, _, h⟩ := bind_eq_ok.mp h
+    obtain ⟨d2, _, h⟩ := bind_eq_ok.mp h
+    split at h
+    · simp [throw, throwThe, MonadExceptOf.throw] at h
+    · obtain ⟨r, hr, ⟨c1, c2, hc1, hc2, e1, _, e2, _, e3⟩, ht, ⟨target, hcr⟩, hf, hco, hnc, hal, hmx⟩ := mixingCore_ok h
+      refine ⟨r, hr, ⟨_, hcr, rfl, by rw [ht]; rfl⟩,
+        ⟨c1, List.mem_of_getElem? hc1, c2, List.mem_of_getElem? hc2, e1, e2, e3⟩, ?_, hco, hnc, ?_, hmx⟩
+      · intro x hx e
+        have := hf x hx
+        simp [e] at this
+      · intro a' ha'
+        obtain ⟨a, ha, v, i1, i2, i3⟩ := hal a' ha'
+        exact ⟨a, ha, v, by simpa using i1, i2, i3⟩
+
+/-! ### reference criterion -/
+
+/-- Whatever the strategy (`importanceRatio`, `randomUniform`, `randomWeighted`) and its parameters, the
+    reference criterion is one of the ranked — i.e. existing — criteria. -/
+theorem reference_criterion_is_an_existing_criterion {α : Type} [Num α] {p : Props α}
+    {ranked : List (WCrit α)} {d : Draws α} {c : Crit α} (h : refCriterion p ranked d = .ok c) :
+    c ∈ ranked.map (·.crit) := refCriterion_mem h
+
+theorem eqCrit_refl (c : Crit Rat) : Spec.C18.eqCrit c c = true := eqCritQ_refl c
+
+/-- The checker the driver evaluates on the implementation's output (`check-c18-refcrit`) accepts the
+    model's reference criterion for every ranking, strategy, parameters and random stream. -/
+theorem spec_accepts_the_models_reference_criterion {p : Props Rat} {ranked : List (WCrit Rat)}
+    {d : Draws Rat} {c : Crit Rat} (h : refCriterion p ranked d = .ok c) :
+    Spec.C18.refCritOk ranked c = true := by
+  have hm := refCriterion_mem h
+  rw [List.mem_map] at hm
+  obtain ⟨w, hw, rfl⟩ := hm
+  unfold Spec.C18.refCritOk
+  rw [List.any_eq_true]
+  exact ⟨w, hw, eqCrit_refl _⟩
+
+/-- `FindCriterionInRange` answers on every non-empty ranking, with a member of it. -/
+theorem find_criterion_in_range_returns_a_member {α : Type} [Num α] (ranked : List (WCrit α)) (e : α)
+    (hne : ranked ≠ []) : ∃ w ∈ ranked, findCriterionInRange ranked e = .ok w.crit := by
+  obtain ⟨c, hc⟩ := findCriterionInRange_total e hne
+  obtain ⟨w, hw, rfl⟩ := findCriterionInRange_mem hc
+  exact ⟨w, hw, hc⟩
+
+/-- The uniform strategy's index `⌊u·n⌋` is a valid index for `u ∈ [0,1)`. -/
+theorem uniform_index_is_in_range (u : Rat) (n : Nat) (hn : 0 < n) (hu0 : 0 ≤ u) (hu1 : u < 1) :
+    0 ≤ (Num.floorInt (u * Num.ofNat n) : Int) ∧ (Num.floorInt (u * Num.ofNat n) : Int) < n := by
+  have := floor_mul_bounds u (Int.ofNat n) hu0 hu1 (by simpa using hn)
+  simpa [Num.ofNat] using this
+
 end Rdm.Props.C18
